@@ -14,6 +14,7 @@ pub open spec fn ref_compose(sch: Option<Seq<u8>>, au: Option<Seq<u8>>, p: Seq<u
     opt_prefix(sch, 58) + opt_auth(au) + p + opt_suffix(63, q) + opt_suffix(35, f)
 }
 /// the path is unambiguous in its context (RFC 3986 section 3.3)
+#[verifier::opaque]
 pub open spec fn path_fits(sch: Option<Seq<u8>>, au: Option<Seq<u8>>, p: Seq<u8>) -> bool {
     &&& path_shape(p)
     &&& (au is Some ==> p.len() == 0 || p[0] == 47)
@@ -47,6 +48,7 @@ pub proof fn lemma_ref_compose(sch: Option<Seq<u8>>, au: Option<Seq<u8>>, p: Seq
         &&& r_scheme(s) == sch && r_auth(s) == au && r_path(s) == p && r_query(s) == q && r_frag(s) == f
     }),
 {
+    reveal(path_fits);
     let s1 = opt_prefix(sch, 58);
     let s2 = opt_auth(au);
     let s4 = opt_suffix(63, q);
@@ -151,6 +153,7 @@ pub proof fn lemma_ref_decompose(s: Seq<u8>)
         opt_ok(r_scheme(s), |x: Seq<u8>| scheme_shape(x)), opt_ok(r_auth(s), |x: Seq<u8>| authority_shape(x)),
         path_fits(r_scheme(s), r_auth(s), r_path(s)), opt_ok(r_query(s), |x: Seq<u8>| query_shape(x)),
 {
+    reveal(path_fits);
     lemma_x_layout(s);
     lemma_first_of_bounds(s, 0, C_CSQF);
     let h = x_hier(s);
@@ -188,6 +191,7 @@ pub proof fn lemma_ref_pieces(s: Seq<u8>)
         opt_ok(r_scheme(s), |x: Seq<u8>| scheme_shape(x)), opt_ok(r_auth(s), |x: Seq<u8>| authority_shape(x)),
         path_fits(r_scheme(s), r_auth(s), r_path(s)), opt_ok(r_query(s), |x: Seq<u8>| query_shape(x)),
 {
+    reveal(path_fits);
     lemma_x_layout(s);
     lemma_ref_decompose(s);
 }
@@ -197,6 +201,7 @@ pub proof fn lemma_five(a: Seq<u8>, b: Seq<u8>, c: Seq<u8>, d: Seq<u8>, e: Seq<u
     requires a =~= opt_prefix(sch, 58), b =~= opt_auth(au), c =~= p, d =~= opt_suffix(63, q), e =~= opt_suffix(35, f),
     ensures a + b + c + d + e =~= ref_compose(sch, au, p, q, f),
 {
+    reveal(path_fits);
 }
 
 /// the documented disambiguations (RFC 3986 3.3 / 4.2), as the path text that must result
@@ -204,7 +209,7 @@ pub open spec fn shield_colon(p: Seq<u8>) -> Seq<u8> { sq2(46, 47) + p }     // 
 pub open spec fn shield_dslash(p: Seq<u8>) -> Seq<u8> { sq2(47, 46) + p }    // "/." + p
 pub open spec fn make_abs(p: Seq<u8>) -> Seq<u8> { sq1(47) + p }             // "/" + p
 pub open spec fn fit_path(sch: Option<Seq<u8>>, au: Option<Seq<u8>>, p: Seq<u8>) -> Seq<u8> {
-    if au is Some { if p.len() > 0 && p[0] == 47 { p } else { make_abs(p) } }
+    if au is Some { if p.len() == 0 || p[0] == 47 { p } else { make_abs(p) } }
     else if starts_dslash(p) { shield_dslash(p) }
     else if sch is None && first_seg_has_colon(p) { shield_colon(p) }
     else { p }
@@ -214,9 +219,10 @@ pub proof fn lemma_fit_path(sch: Option<Seq<u8>>, au: Option<Seq<u8>>, p: Seq<u8
     requires path_shape(p),
     ensures path_fits(sch, au, fit_path(sch, au, p)),
 {
+    reveal(path_fits);
     let r = fit_path(sch, au, p);
     if au is Some {
-        if !(p.len() > 0 && p[0] == 47) { assert(r[0] == 47); assert(forall|j: int| 1 <= j < r.len() ==> #[trigger] r[j] == p[j - 1]); }
+        if !(p.len() == 0 || p[0] == 47) { assert(r[0] == 47); assert(forall|j: int| 1 <= j < r.len() ==> #[trigger] r[j] == p[j - 1]); }
     } else if starts_dslash(p) {
         assert(r[0] == 47 && r[1] == 46);
         assert(forall|j: int| 2 <= j < r.len() ==> #[trigger] r[j] == p[j - 2]);
@@ -247,6 +253,7 @@ pub proof fn lemma_set_pieces(o: Seq<u8>, n: Seq<u8>, sch: Option<Seq<u8>>, au: 
         path_fits(sch, au, p), opt_ok(q, |x: Seq<u8>| query_shape(x)),
     ensures set_post(o, n, sch, au, p, q, f),
 {
+    reveal(path_fits);
     lemma_ref_compose(sch, au, p, q, f);
 }
 } // verus!
@@ -257,15 +264,16 @@ pub proof fn lemma_cs_is_csqf(p: Seq<u8>, from: int)
     ensures first_of(p, from, C_CS) == first_of(p, from, C_CSQF),
     decreases p.len() - from
 {
+    reveal(path_fits);
     if from < p.len() && !cls(C_CS, p[from]) { lemma_cs_is_csqf(p, from + 1); }
 }
 } // verus!
 
 verus! {
-/// the path that must result from set_authority: a relative path gains '/' when an authority
-/// appears, a path starting with "//" gains "/." when the authority disappears
+/// the path that must result from set_authority: a non-empty relative path gains '/' when an authority
+/// appears (an empty path stays empty: RFC 3986 path-abempty), a path starting with "//" gains "/." when the authority disappears
 pub open spec fn set_auth_path(old_au: Option<Seq<u8>>, new_some: bool, p: Seq<u8>) -> Seq<u8> {
-    if new_some { if old_au is Some || (p.len() > 0 && p[0] == 47) { p } else { make_abs(p) } }
+    if new_some { if old_au is Some || p.len() == 0 || p[0] == 47 { p } else { make_abs(p) } }
     else if old_au is Some && starts_dslash(p) { shield_dslash(p) }
     else { p }
 }
@@ -275,9 +283,10 @@ pub proof fn lemma_set_auth_path(sch: Option<Seq<u8>>, old_au: Option<Seq<u8>>, 
         new_some ==> path_fits(sch, Some(sq0()), set_auth_path(old_au, new_some, p)),
         !new_some ==> path_fits(sch, None, set_auth_path(old_au, new_some, p)),
 {
+    reveal(path_fits);
     let r = set_auth_path(old_au, new_some, p);
     if new_some {
-        if !(old_au is Some || (p.len() > 0 && p[0] == 47)) { assert(r[0] == 47); assert(forall|j: int| 1 <= j < r.len() ==> #[trigger] r[j] == p[j - 1]); }
+        if !(old_au is Some || p.len() == 0 || p[0] == 47) { assert(r[0] == 47); assert(forall|j: int| 1 <= j < r.len() ==> #[trigger] r[j] == p[j - 1]); }
     } else if old_au is Some {
         if starts_dslash(p) {
             assert(r[0] == 47 && r[1] == 46);
@@ -295,7 +304,7 @@ pub open spec fn set_auth_text(o: Seq<u8>, na: Option<Seq<u8>>) -> Seq<u8> {
     let h = x_hier(o); let ae = x_auth_end(o); let p = r_path(o);
     match na {
         Some(x) => if x_has_auth(o) { splice(o, h + 2, ae, x) }
-                   else if p.len() > 0 && p[0] == 47 { splice(o, h, h, sq2(47, 47) + x) }
+                   else if p.len() == 0 || p[0] == 47 { splice(o, h, h, sq2(47, 47) + x) }
                    else { splice(o, h, h, sq2(47, 47) + x + sq1(47)) },
         None => if x_has_auth(o) { if starts_dslash(p) { splice(o, h, ae, sq2(47, 46)) } else { splice(o, h, ae, sq0()) } } else { o },
     }
@@ -309,6 +318,7 @@ proof fn lemma_sa_tail(o: Seq<u8>)
         o.subrange(x_auth_end(o), o.len() as int) =~= r_path(o) + opt_suffix(63, r_query(o)) + opt_suffix(35, r_frag(o)),
         o.subrange(x_path_end(o), o.len() as int) =~= opt_suffix(63, r_query(o)) + opt_suffix(35, r_frag(o)),
 {
+    reveal(path_fits);
     lemma_ref_pieces(o);
     let ae = x_auth_end(o); let pe = x_path_end(o); let qe = x_query_end(o);
     assert(o.subrange(ae, o.len() as int) =~= o.subrange(ae, pe) + o.subrange(pe, qe) + o.subrange(qe, o.len() as int));
@@ -318,6 +328,7 @@ proof fn lemma_sa_some_has(o: Seq<u8>, x: Seq<u8>)
     requires ref_shape(o), authority_shape(x), x_has_auth(o),
     ensures set_auth_post(o, set_auth_text(o, Some(x)), Some(x)),
 {
+    reveal(path_fits);
     lemma_ref_pieces(o); lemma_sa_tail(o);
     let h = x_hier(o); let ae = x_auth_end(o);
     let n = set_auth_text(o, Some(x));
@@ -327,9 +338,10 @@ proof fn lemma_sa_some_has(o: Seq<u8>, x: Seq<u8>)
     lemma_set_pieces(o, n, r_scheme(o), Some(x), r_path(o), r_query(o), r_frag(o));
 }
 proof fn lemma_sa_some_abs(o: Seq<u8>, x: Seq<u8>)
-    requires ref_shape(o), authority_shape(x), !x_has_auth(o), r_path(o).len() > 0 && r_path(o)[0] == 47,
+    requires ref_shape(o), authority_shape(x), !x_has_auth(o), r_path(o).len() == 0 || r_path(o)[0] == 47,
     ensures set_auth_post(o, set_auth_text(o, Some(x)), Some(x)),
 {
+    reveal(path_fits);
     lemma_ref_pieces(o); lemma_sa_tail(o);
     let h = x_hier(o);
     let n = set_auth_text(o, Some(x));
@@ -338,9 +350,10 @@ proof fn lemma_sa_some_abs(o: Seq<u8>, x: Seq<u8>)
     lemma_set_pieces(o, n, r_scheme(o), Some(x), r_path(o), r_query(o), r_frag(o));
 }
 proof fn lemma_sa_some_rel(o: Seq<u8>, x: Seq<u8>)
-    requires ref_shape(o), authority_shape(x), !x_has_auth(o), !(r_path(o).len() > 0 && r_path(o)[0] == 47),
+    requires ref_shape(o), authority_shape(x), !x_has_auth(o), r_path(o).len() > 0 && r_path(o)[0] != 47,
     ensures set_auth_post(o, set_auth_text(o, Some(x)), Some(x)),
 {
+    reveal(path_fits);
     lemma_ref_pieces(o); lemma_sa_tail(o);
     let h = x_hier(o);
     let n = set_auth_text(o, Some(x));
@@ -353,6 +366,7 @@ proof fn lemma_sa_none(o: Seq<u8>)
     requires ref_shape(o),
     ensures set_auth_post(o, set_auth_text(o, None), None),
 {
+    reveal(path_fits);
     lemma_ref_pieces(o); lemma_sa_tail(o);
     let h = x_hier(o); let ae = x_auth_end(o);
     let n = set_auth_text(o, None);
@@ -373,13 +387,65 @@ pub proof fn lemma_set_authority(o: Seq<u8>, na: Option<Seq<u8>>)
     requires ref_shape(o), opt_ok(na, |x: Seq<u8>| authority_shape(x)),
     ensures set_auth_post(o, set_auth_text(o, na), na),
 {
+    reveal(path_fits);
     match na {
         Some(x) => {
             if x_has_auth(o) { lemma_sa_some_has(o, x); }
-            else if r_path(o).len() > 0 && r_path(o)[0] == 47 { lemma_sa_some_abs(o, x); }
+            else if r_path(o).len() == 0 || r_path(o)[0] == 47 { lemma_sa_some_abs(o, x); }
             else { lemma_sa_some_rel(o, x); }
         },
         None => { lemma_sa_none(o); },
     }
+}
+} // verus!
+
+verus! {
+/// first_of in a prefix that ends at or before the first hit
+pub proof fn lemma_first_of_prefix(s: Seq<u8>, e: int, from: int, c: int)
+    requires 0 <= from <= e <= s.len(),
+    ensures first_of(s.subrange(0, e), from, c) == (if first_of(s, from, c) < e { first_of(s, from, c) } else { e }),
+    decreases e - from
+{
+    reveal(path_fits);
+    let t = s.subrange(0, e);
+    lemma_first_of_bounds(s, from, c);
+    if from < e {
+        assert(t[from] == s[from]);
+        if !cls(c, s[from]) {
+            lemma_first_of_prefix(s, e, from + 1, c);
+            lemma_first_of_bounds(s, from + 1, c);
+        }
+    }
+}
+/// the text before the path (scheme ":" "//" authority) has an authority iff the whole text has
+pub proof fn lemma_prefix_auth(s: Seq<u8>)
+    ensures x_has_auth(s.subrange(0, x_auth_end(s))) == x_has_auth(s),
+{
+    reveal(path_fits);
+    lemma_x_layout(s);
+    let e = x_auth_end(s);
+    let t = s.subrange(0, e);
+    lemma_first_of_bounds(s, 0, C_CSQF);
+    lemma_first_of_prefix(s, e, 0, C_CSQF);
+    let k = x_sch_end(s);
+    assert(forall|j: int| 0 <= j < e ==> #[trigger] t[j] == s[j]);
+    if x_has_sch(s) {
+        assert(k < e);
+    } else {
+        // no scheme in s: the first of ":/?#" in s is not a ':'; in t it is the same position or e
+        if k < e { assert(t[k] == s[k]); }
+    }
+}
+} // verus!
+
+verus! {
+pub proof fn lemma_sa_tail_pub(o: Seq<u8>)
+    requires ref_shape(o),
+    ensures
+        o.subrange(x_auth_end(o), o.len() as int) =~= r_path(o) + opt_suffix(63, r_query(o)) + opt_suffix(35, r_frag(o)),
+        o.subrange(x_path_end(o), o.len() as int) =~= opt_suffix(63, r_query(o)) + opt_suffix(35, r_frag(o)),
+{
+    reveal(path_fits);
+    lemma_sa_tail(o);
 }
 } // verus!
